@@ -429,9 +429,10 @@ Fixpoint run (s : state) (ops : list op) : list (state * list effect) :=
 
 End Variant.
 
-(* which variant /repo is: false = the same-node check is made once and cached in the job status
-   (current code, known finding sig 1); flip to true once the repair is committed *)
-Definition recheck_same_node : bool := false.
+(* which variant /repo is: true since commit 025e424 ("re-check the reservation's node against the
+   pod right before evicting"); false = the same-node check is made once and cached in the job
+   status (the code before that commit; findings/C17-same-node-after-pod-replaced.md) *)
+Definition recheck_same_node : bool := true.
 
 (* the job as created: no status except possibly phase Pending *)
 Definition init_job (direct paused : bool) (ttl : Z) (pvalid : bool) (initphase : Z) (rref0 : bool) (createdby : bool) : job :=
